@@ -54,7 +54,7 @@ func oracleC14(w *World, op *Op) {
 		return
 	}
 	st := w.be.Log.Seq[op.A]
-	if !bytes.Equal(j.LeafInput, st.Value) || !bytes.Equal(j.ExtraData, w.x.fullExtra(st)) {
+	if !bytes.Equal(j.LeafInput, st.Value) || !w.x.extraOK(st, j.ExtraData) {
 		s.Violate("entries-bytes", "get-entry-and-proof", "op%03d get-entry-and-proof(%d,%d): extra_data / leaf_input differ from what the default mode serves for index %d (store/cache decisions for this request: %v)", op.ID, op.A, op.B, op.A, op.StoreOps)
 		return
 	}
@@ -102,11 +102,13 @@ func finalC14(w *World) {
 	w.reps, w.be, w.mode.External = []*replica{{inst: inst}}, twinBE, false
 	defer func() { w.reps, w.be, w.mode.External = saveReps, saveBE, saveMode }()
 	for i := int64(0); i < n; i++ {
-		sub := (*Submission)(nil)
-		for _, c := range w.subs {
-			if bytes.Equal(sha(c.Leaf.DER), saveBE.Log.Seq[i].Identity) {
-				sub = c
-				break
+		sub := saveBE.Creator[string(saveBE.Log.Seq[i].Identity)] // feed the twin the submission that created the leaf
+		if sub == nil {
+			for _, c := range w.subs {
+				if bytes.Equal(sha(c.Leaf.DER), saveBE.Log.Seq[i].Identity) {
+					sub = c
+					break
+				}
 			}
 		}
 		if sub == nil {
